@@ -385,6 +385,7 @@ func (q *WaitQ) WakeAll() {
 	}
 	q.waiters = q.waiters[:0]
 	s.mu.Unlock()
+	s.signal()
 	raceEnable()
 }
 
